@@ -239,6 +239,7 @@ type PartResp struct {
 	Err       int16
 	HWM       int64
 	LSO       int64
+	LogStart  int64
 	Aborted   [][2]int64 // pid, first offset
 	Pref      int32
 	Records   []byte
@@ -278,7 +279,7 @@ func EncodeResponse(version int16, throttleMs int32, parts []PartResp) []byte {
 			if version >= 4 {
 				p64(p.LSO)
 				if version >= 5 {
-					p64(0)
+					p64(p.LogStart)
 				}
 				p32(int32(len(p.Aborted)))
 				for _, a := range p.Aborted {
